@@ -1829,13 +1829,26 @@ func makePointerArshaler(t reflect.Type) *arshaler {
 			// TODO: This does not correctly handle escaped nulls
 			// (e.g., "\u006e\u0075\u006c\u006c"), but is good enough
 			// for such an esoteric use case of the `string` option.
-			if string(export.Decoder(dec).PreviousTokenOrValue()) == `"null"` {
+			if string(export.Decoder(dec).PreviousTokenOrValue()) == `"null"` && isLegacyStringifiableKind(t.Elem().Kind()) {
 				va.SetZero()
 			}
 		}
 		return nil
 	}
 	return &fncs
+}
+
+// isLegacyStringifiableKind reports whether the `string` tag option
+// historically applied to a Go value of kind k.
+func isLegacyStringifiableKind(k reflect.Kind) bool {
+	switch k {
+	case reflect.Bool, reflect.String,
+		reflect.Int, reflect.Int8, reflect.Int16, reflect.Int32, reflect.Int64,
+		reflect.Uint, reflect.Uint8, reflect.Uint16, reflect.Uint32, reflect.Uint64, reflect.Uintptr,
+		reflect.Float32, reflect.Float64:
+		return true
+	}
+	return false
 }
 
 func makeInterfaceArshaler(t reflect.Type) *arshaler {
